@@ -617,6 +617,9 @@ theorem ew_finalize_abs (ft : FloatText) (e e' : EW) (tr : String → Option Str
   · split at h
     · cases h
     · rename_i xml0 _ xml _
+      change ite _ _ _ = _ at h
+      split at h
+      · cases h
       obtain ⟨p1, e1, h⟩ := Outcome.bind_eq_ok h
       obtain ⟨p1a, e1a, h⟩ := Outcome.bind_eq_ok h
       obtain ⟨p1', f1, i1, a1⟩ := pw_writeAll e.pw (utf8 xml) hpw
